@@ -71,7 +71,9 @@ impl QGramIndex {
         let text = text.into_iter();
         let ranks = RankTransform::new(alphabet);
 
-        let qgram_count = alphabet.len().pow(q);
+        // q-grams are encoded by bit-packing symbol ranks (see `RankTransform::qgrams`),
+        // hence codes range up to 2^(bits * q), which exceeds |alphabet|^q unless |alphabet| is a power of two
+        let qgram_count = 1usize << (ranks.get_width() * q as usize);
         let mut address = vec![0; qgram_count + 1];
 
         for qgram in ranks.qgrams(q, text.clone()) {
